@@ -1072,6 +1072,8 @@ THEOREMS = [
     "C08.polygon_centroid_rotate",
     "C08.center_rotateTo",
     "C08.polygon_band_contains_boundary",
+    "C08.ops_equivariant_spec",
+    "C08.ops_equivariant",
     "C08.copy_same",
     "C08.params_roundtrip",
     "C08.restore_same",
